@@ -633,6 +633,9 @@ def observed(res):
         return "panic"
     if oc == "hang":
         return "hang"
+    if "c10 harness" in str(res.get("stderr")):
+        # a provider / sink of the harness panicked inside the trampoline: not roto's doing
+        raise vlib.ToolError("harness failure: %s" % res.get("stderr"))
     return oc[len("crash:"):]       # signal:N | exit:N | timeout
 
 
@@ -843,6 +846,13 @@ def run_family(tag, points, expects, docs, rng, ev, verd, hangs):
                     {"point": p, "case": dict(case, script=os.path.basename(case["script"])),
                      "function": plan.texts[i], "outcome": oc, "trace": path, "unmatched_line": un["line"],
                      "prelude": op_arg_script(p["ty"]) if p["kind"] == "op" and p["mode"] == "arg" else ""})
+    tally = ev.extra.setdefault("not_returned_by_item_and_outcome", {})
+    for p, oc in zip(points, outcomes):
+        if oc != "returned":
+            item = ((p["form"] + " " + p["op"], "int" if p["ty"] in INT_TYPES else "float")
+                    if p["kind"] == "op" else (p["name"], p["mode"]))
+            key = "%s %s: %s" % (item[0], item[1], oc)
+            tally[key] = tally.get(key, 0) + 1
     for p, oc in zip(points, outcomes):
         ev.case(p, nontrivial(p), key=vlib.shash(p))
         ev.impl_actions.add("Call")
@@ -927,7 +937,7 @@ def run(tier):
     run_family("enum", points, expects, docs, rng, ev, verd, hangs)
 
     # seeded generator
-    nop, nbi = (3000, 3000) if tier == "quick" else (40000, 30000)
+    nop, nbi = (3000, 3000) if tier == "quick" else (100000, 80000)
     gen = [rnd_op_point(rng) for _ in range(nop)] + [rnd_builtin_point(spec_table, rng) for _ in range(nbi)]
     run_family("rnd", gen, None, docs, rng, ev, verd, hangs)
     ev.extra["generated_points"] = len(gen)
